@@ -199,6 +199,31 @@ def main():
         em.violation("C10: %s decodes differently (or not at all) while other threads decode other message types" % ident,
                      {"identity": ident, "payload": pay.hex(), "note": "6 threads, switch interval 1e-6"}, {})
     em.samples = [{"checks": "decodability + pinned length of every identity; bit transplants between combined/orbit/clock and parallel families; decodes under concurrency"}]
+    # the same direct checks once more in another interpreter mode: assertions stripped (python -O), another string-hash seed
+    import os as _os
+    if not _os.environ.get("VERIF_INNER"):
+        import subprocess as _sp
+        import tempfile as _tf
+        import json as _json
+        inner = _tf.mkdtemp(prefix="inner-", dir=a.out)
+        env2 = dict(_os.environ)
+        env2["VERIF_INNER"] = "1"
+        env2["PYTHONHASHSEED"] = "987"
+        pr = _sp.run([_sys.executable, "-O", _os.path.abspath(__file__), "--prop", a.prop, "--tier", a.tier, "--seed", str(a.seed), "--out", inner],
+                     capture_output=True, text=True, env=env2, timeout=3000)
+        try:
+            mi = _json.load(open(_os.path.join(inner, "meta.json")))
+        except Exception:  # noqa
+            mi = None
+        if pr.returncode != 0 or mi is None:
+            em.violation("C10: the direct checks crash under python -O: %s" % pr.stderr[-300:], {"note": "python -O"}, {})
+        else:
+            em.direct_evaluations += mi.get("direct_evaluations", 0)
+            for v in mi.get("direct_violations", [])[:5]:
+                v["desc"] = "under python -O (assertions stripped): " + v["desc"]
+                v.setdefault("input", {})["note"] = "python -O"
+                em.direct_violations.append(v)
+        em.count("second_interpreter_mode", 1)
     em.finish()
 
 
